@@ -74,8 +74,8 @@ void Input(util::UnboundedSingleQueue<QueueEntry> &queue, util::scoped_fd &proce
       queue.Produce(q_entry);
       if (res.second) {
         // New entry.  Send to captive process.
-        process << l << '\n';
         PV_TRACE("F.write", pv_index, 0);
+        process << l << '\n';
         // Guarantee we flush to process every so often.
         if (!--flush_count) {
           process.flush();
